@@ -208,19 +208,39 @@ theorem pubAck_cli (b : B) (c : Cli) (r : PubReq) (m : Bool) (c0 : Cli) (h : b.c
   · exact (quotaBack_cli b4 r.conn c0 h4).trans (by rw [hcfg])
   · rw [h4]
 
+/-- does the accepted PUBLISH get its receive-quota unit back at once: QoS 1 with the PUBACK, a retransmission of a
+    QoS 2 PUBLISH still awaiting PUBREL because its id already holds a unit (v5 only) -/
+def gaveBack (c : Cli) (r : PubReq) (s : Sess) : Bool :=
+  (r.qos == 1 || (r.qos == 2 && s.unack.contains r.pid)) && c.v == 5
+
+theorem pubDupQuota_cli (b : B) (c : Cli) (r : PubReq) (d : Bool) (c0 : Cli) (h : b.cli? r.conn = some c0) :
+    (b.pubDupQuota c r d).cli? r.conn =
+      some { c0 with quota := if (d && c.v == 5) = true then min (c0.quota + 1) b.cfg.recvMax else c0.quota } ∧
+    (b.pubDupQuota c r d).cfg = b.cfg := by
+  unfold B.pubDupQuota
+  split
+  · exact ⟨quotaBack_cli b r.conn c0 h, by rw [h]; rfl⟩
+  · exact ⟨h, rfl⟩
+
 theorem publishTail_cli (b : B) (c : Cli) (r : PubReq) (s : Sess) (c0 : Cli) (h : b.cli? r.conn = some c0) :
     (b.publishTail c r s).cli? r.conn =
-      some { c0 with quota := if (r.qos == 1 && c.v == 5) = true then min (c0.quota + 1) b.cfg.recvMax else c0.quota } := by
+      some { c0 with quota := if gaveBack c r s = true then min (c0.quota + 1) b.cfg.recvMax else c0.quota } := by
   unfold B.publishTail
   extract_lets dupl s1 b1 bm
-  have h1 : b1.cli? r.conn = some c0 := by
-    simp only [b1]; rw [pubRetain_cli?]; exact h
+  obtain ⟨hq1, hqcfg⟩ := pubDupQuota_cli (b.setSess s1) c r dupl c0 h
+  have h1 : b1.cli? r.conn =
+      some { c0 with quota := if (dupl && c.v == 5) = true then min (c0.quota + 1) b.cfg.recvMax else c0.quota } := by
+    simp only [b1]; rw [pubRetain_cli?]; exact hq1
   have hcfg1 : b1.cfg = b.cfg := by
-    simp only [b1, B.pubRetain]
-    split
-    · split <;> rfl
-    · rfl
-  have hm : bm.1.cli? r.conn = some c0 ∧ bm.1.cfg = b.cfg := by
+    have : b1.cfg = ((b.setSess s1).pubDupQuota c r dupl).cfg := by
+      simp only [b1, B.pubRetain]
+      split
+      · split <;> rfl
+      · rfl
+    rw [this, hqcfg]; rfl
+  have hm : bm.1.cli? r.conn =
+      some { c0 with quota := if (dupl && c.v == 5) = true then min (c0.quota + 1) b.cfg.recvMax else c0.quota } ∧
+      bm.1.cfg = b.cfg := by
     simp only [bm]
     split
     · have g := grow_deliverMsg b1 c.cid (pubMsg r) r.hints r.rapHint
@@ -229,7 +249,13 @@ theorem publishTail_cli (b : B) (c : Cli) (r : PubReq) (s : Sess) (c0 : Cli) (h 
       rw [g.clis]
       exact h1
     · exact ⟨h1, hcfg1⟩
-  rw [pubAck_cli _ c r _ c0 hm.1, hm.2]
+  rw [pubAck_cli _ c r _ _ hm.1, hm.2]
+  unfold gaveBack
+  simp only [dupl]
+  by_cases h1q : r.qos = 1
+  · simp [h1q]
+  · have h1' : (r.qos == 1) = false := by simpa using h1q
+    simp [h1']
 
 theorem pubrelIn_cli (b : B) (conn : String) (pid : Nat) (c : Cli) (hc : b.cli? conn = some c) :
     (b.pubrelIn conn pid).cli? conn =
@@ -253,7 +279,7 @@ theorem publish_online (b : B) (r : PubReq) (c : Cli) (s : Sess) (hc : b.cli? r.
     (hs : b.sess? c.cid = some s) (c' : Cli) (h' : (b.publish r).cli? r.conn = some c') :
     ¬ (c.v = 5 ∧ r.qos > 0 ∧ c.quota = 0) ∧
     ∃ c2 : Cli,
-      c' = { c2 with quota := if (r.qos == 1 && c.v == 5) = true then min ((pubCli c r).quota + 1) b.cfg.recvMax else (pubCli c r).quota } ∧
+      c' = { c2 with quota := if gaveBack c r s = true then min ((pubCli c r).quota + 1) b.cfg.recvMax else (pubCli c r).quota } ∧
       c2 = { pubCli c r with aliasIn := c2.aliasIn } := by
   have hconn := (cli?_some hc).2
   rw [publish_eq] at h'
@@ -281,13 +307,14 @@ theorem publish_online (b : B) (r : PubReq) (c : Cli) (s : Sess) (hc : b.cli? r.
               have hcli2 : ((b.setCli (pubCli c r)).setCli c2).cli? r.conn = some c2 := by
                 rw [cli?_setCli, if_pos (by rw [h2conn, pubCli_conn]; exact hconn)]
               have e : (((b.setCli (pubCli c r)).setCli c2).publishTail c2 { r with topic := topic } s).cli? r.conn =
-                  some { c2 with quota := if (r.qos == 1 && c2.v == 5) = true then min (c2.quota + 1) b.cfg.recvMax else c2.quota } :=
+                  some { c2 with quota := if gaveBack c2 { r with topic := topic } s = true then min (c2.quota + 1) b.cfg.recvMax else c2.quota } :=
                 publishTail_cli _ c2 { r with topic := topic } s c2 hcli2
               rw [e] at h'
               have hq2 : c2.quota = (pubCli c r).quota := by rw [hc2]
               have hv2 : c2.v = c.v := by rw [h2v, pubCli_v]
               refine ⟨c2, ?_, hc2⟩
-              rw [← Option.some.inj h', hq2, hv2]
+              have hg : gaveBack c2 { r with topic := topic } s = gaveBack c r s := by unfold gaveBack; rw [hv2]
+              rw [← Option.some.inj h', hq2, hg]
 
 /-! ### what the other steps leave alone -/
 
@@ -380,12 +407,21 @@ theorem step_fresh (b : B) (st : Step) (conn : String) (c' : Cli) (hc : b.cli? c
 
 /-! ### receive-quota units in use -/
 
+/-- is the QoS 2 packet id `pid` awaiting PUBREL on the session of connection `conn` -/
+def outstanding (b : B) (conn : String) (pid : Nat) : Bool :=
+  match b.cli? conn with
+  | some c => (match b.sess? c.cid with | some s => s.unack.contains pid | none => false)
+  | none => false
+
 /-- how a step changes the number of receive-quota units in use on `conn`: a QoS 2 PUBLISH on `conn` that leaves the
-    connection online takes one (a QoS 1 PUBLISH takes one and gets it back with the PUBACK); a PUBREL on `conn` gives one
-    back, if any is in use; a CONNECT that registers `conn` starts at 0 -/
+    connection online takes one unless it is a retransmission of one still awaiting PUBREL — that id holds its unit
+    already — (a QoS 1 PUBLISH takes one and gets it back with the PUBACK); a PUBREL on `conn` gives one back, if any is
+    in use; a CONNECT that registers `conn` starts at 0 -/
 def inUseStep (conn : String) (b : B) (st : Step) (n : Nat) : Nat :=
   match st with
-  | .publish r => if r.conn = conn ∧ r.qos ≥ 2 ∧ ((b.publish r).cli? conn).isSome = true then n + 1 else n
+  | .publish r =>
+    if r.conn = conn ∧ r.qos ≥ 2 ∧ ¬ (r.qos = 2 ∧ outstanding b conn r.pid = true) ∧
+       ((b.publish r).cli? conn).isSome = true then n + 1 else n
   | .pubrel c _ => if c = conn then n - 1 else n
   | .connect r => if r.conn = conn ∧ b.cli? conn = none then 0 else n
   | _ => n
@@ -419,20 +455,47 @@ theorem quota_ghost_step (b : B) (hw : WF b) (st : Step) (conn : String) (n : Na
         have hc'' : (b.publish r).cli? r.conn = some c' := hc'
         obtain ⟨hnr, c2, rfl, _⟩ := publish_online b r c s hc hs c' hc''
         have hv5 : (c.v == 5) = true := by simpa using hvc
-        simp only [inUseStep, hc'', Option.isSome_some, and_true, true_and]
-        unfold pubCli
+        have hout : outstanding b r.conn r.pid = s.unack.contains r.pid := by
+          unfold outstanding; rw [hc]; simp only; rw [hs]
+        simp only [inUseStep, hc'', Option.isSome_some, and_true, true_and, hout]
+        show (if gaveBack c r s = true then min ((pubCli c r).quota + 1) b.cfg.recvMax else (pubCli c r).quota) +
+          (if r.qos ≥ 2 ∧ ¬ (r.qos = 2 ∧ s.unack.contains r.pid = true) then n + 1 else n) = b.cfg.recvMax
         by_cases h0 : r.qos = 0
-        · simp [h0, hv5]; exact hqc
+        · have hpq : (pubCli c r).quota = c.quota := by unfold pubCli; simp [h0]
+          have hgb : gaveBack c r s = false := by unfold gaveBack; simp [h0]
+          rw [hgb]
+          simp only [Bool.false_eq_true, if_false]
+          rw [if_neg (fun h => absurd h.1 (by omega)), hpq]
+          exact hqc
         · have hpos : r.qos > 0 := Nat.pos_of_ne_zero h0
           have hq0 : c.quota ≠ 0 := fun h => hnr ⟨hvc, hpos, h⟩
-          by_cases h1 : r.qos = 1
-          · simp [h1, hv5]
+          have hpq : (pubCli c r).quota = c.quota - 1 := by unfold pubCli; simp [hv5, hpos]
+          have hback : min (c.quota - 1 + 1) b.cfg.recvMax = c.quota := by
             rw [Nat.sub_add_cancel (Nat.pos_of_ne_zero hq0), Nat.min_eq_left (by omega)]
+          by_cases h1 : r.qos = 1
+          · have hgb : gaveBack c r s = true := by unfold gaveBack; simp [h1, hv5]
+            rw [hgb, if_pos rfl, hpq, hback, if_neg (fun h => absurd h.1 (by omega))]
             exact hqc
           · have h2 : r.qos ≥ 2 := by omega
             have h1' : (r.qos == 1) = false := by simpa using h1
-            simp [h2, hv5, hpos, h1']
-            omega
+            by_cases hd : r.qos = 2 ∧ s.unack.contains r.pid = true
+            · have hgb : gaveBack c r s = true := by unfold gaveBack; rw [hd.2, hv5]; simp [hd.1]
+              rw [hgb, if_pos rfl, hpq, hback, if_neg (fun h => h.2 hd)]
+              exact hqc
+            · have hgb : gaveBack c r s = false := by
+                unfold gaveBack
+                rw [h1', Bool.false_or, Bool.and_eq_false_iff]; left
+                rw [Bool.and_eq_false_iff]
+                by_cases hq2 : r.qos = 2
+                · right
+                  cases hcn : s.unack.contains r.pid
+                  · rfl
+                  · exact absurd ⟨hq2, hcn⟩ hd
+                · left; simpa using hq2
+              rw [hgb]
+              simp only [Bool.false_eq_true, if_false]
+              rw [if_pos ⟨h2, hd⟩, hpq]
+              omega
       · have : ¬ (Step.publish r).inb conn := fun h => hr h.symm
         simp only [inUseStep, hr, false_and, if_false]
         exact hframe this
